@@ -60,6 +60,10 @@ def dispatcher_roles(ctx) -> dict:
     for name in sorted(used):
         d = disp.module.functions.get(name)
         if d is None:
+            # imported from a helper module of the package
+            q = repo.resolve(disp.module.name, name)
+            d = repo.functions.get(q) if q else None
+        if d is None:
             continue
         stores = [
             t.value.attr
@@ -68,12 +72,12 @@ def dispatcher_roles(ctx) -> dict:
             if isinstance(t, ast.Subscript) and isinstance(t.value, ast.Attribute) and isinstance(t.value.value, ast.Name) and t.value.value.id == "self"
         ]
         if stores and any(isinstance(x, ast.FunctionDef) and x is not d.node for x in ast.walk(d.node)):
-            decos.append(d)
+            decos.append(name)  # the name it is used under (may be an import alias)
             cache = stores[0]
     if cache is None:
         raise AnalysisError("the dispatcher's memoisation dict was not recognised in its cache decorator")
     roles["cache"] = cache
-    roles["cache_decorators"] = [d.name for d in decos]
+    roles["cache_decorators"] = list(decos)
     ctx._dispatcher_roles = roles
     return roles
 
